@@ -843,13 +843,13 @@ def guards_at(fn, b):
         if t["k"] == "switch":
             discr = val(fn.expr_operand(t["op"]))
             for v, tgt in t["targets"]:
-                if tgt != t["otherwise"] and (tgt == b or fn.edge_dominates(s, tgt, b)):
+                if tgt != t["otherwise"] and sum(1 for _, t2 in t["targets"] if t2 == tgt) == 1 and fn.edge_dominates(s, tgt, b):
                     if t["opty"] == "bool":
                         out.append((discr, bool(v)))
                     else:
                         out.append((("switchval", discr), v))
             o = t["otherwise"]
-            if all(o != tgt for _, tgt in t["targets"]) and (o == b or fn.edge_dominates(s, o, b)):
+            if all(o != tgt for _, tgt in t["targets"]) and fn.edge_dominates(s, o, b):
                 vals = [v for v, _ in t["targets"]]
                 if t["opty"] == "bool" and len(vals) == 1:
                     out.append((discr, not bool(vals[0])))
